@@ -12,7 +12,7 @@ import (
 )
 
 func runL2(c Case) *ev.Verdict {
-	v, tr := l2.RunHistory(c.H, l2.Opts{P: "C01", Trusted: true, Batch: c.Batch, Fatal: c.Fatal, FatalKind: c.FatalKind, Net: c.Level == "L3", ObserveEvery: c.Every, NoRefCheck: c.NoRefCheck})
+	v, tr := l2.RunHistory(c.H, l2.Opts{P: "C01", Trusted: true, Batch: c.Batch, Fatal: c.Fatal, FatalKind: c.FatalKind, Net: c.Level == "L3", ObserveEvery: c.Every, NoRefCheck: c.NoRefCheck, ReElect: c.ReElect})
 	if c.NoRefCheck {
 		v.Class("reference-checks-disabled")
 	}
@@ -86,6 +86,9 @@ func campaignL2(t *testing.T) {
 			c.Every = rapid.IntRange(2, 5).Draw(rt, "every")
 		}
 		c.NoRefCheck = rapid.IntRange(0, 7).Draw(rt, "norefcheck?") == 0
+		if c.Fatal == 0 && rapid.IntRange(0, 3).Draw(rt, "reelect?") == 0 {
+			c.ReElect = rapid.IntRange(1, 3).Draw(rt, "reelect")
+		}
 		if rapid.IntRange(0, 3).Draw(rt, "l3?") == 0 {
 			// the same history over real gRPC (bufconn): transport must not change anything
 			c.Level, c.Fatal, c.FatalKind = "L3", 0, 0
